@@ -246,7 +246,9 @@ def oracle_ns(path: str, doc: List[Dict[str, Any]], py: List[Dict[str, Any]], in
         rec('twice', '?', [e['n'] for e in doc], None)
     # docstrings of variables: against the generator's ground truth (see attr_doc_truth)
     want_docs = ctx['attr_truth'].get(rel, {})
-    judged = not ns_tainted(rel, ctx['attr_taint']) and all(n in d and d[n]['t'] == 'A' for n in want_docs)
+    # a string after `self.p = ..` for a property p (or after an assignment that did not create a variable) goes to whatever
+    # attribute was pending before: one more "window not closed" position, left unjudged
+    judged = not ns_tainted(rel, ctx['attr_taint']) and all(n in d and d[n]['t'] == 'A' and d[n]['k'] != 'PROPERTY' for n in want_docs)
     ctx['stat']['attrdoc_ns_judged' if judged else 'attrdoc_ns_unjudged'] = ctx['stat'].get('attrdoc_ns_judged' if judged else 'attrdoc_ns_unjudged', 0) + 1
     if judged:
         ctx['stat']['attrdoc_vars_with_doc'] = ctx['stat'].get('attrdoc_vars_with_doc', 0) + len(want_docs)
@@ -582,17 +584,21 @@ class Check(PropertyCheck):
         a2 = lib.run_impl_worker('c03_cpython.py', payload2, jobs=jobs, seed=self.seed)
         mod: Dict[Tuple[int, str], Any] = {}
         if with_model:
-            mod = self.model_rounds(pkgs)
+            mod = self.model_rounds(pkgs, a2)
         return a1, a2, mod
 
-    def model_rounds(self, pkgs: List[Dict[str, Any]]) -> Dict[Tuple[int, str], Any]:
+    def model_rounds(self, pkgs: List[Dict[str, Any]], a2: Optional[List[Any]] = None) -> Dict[Tuple[int, str], Any]:
         """Runs the extracted model on every module; a module that imports from another module of its package is run after
-        it, with the import statement annotated by what the model found there (resolved-bases oracle)."""
+        it, with the import statement annotated by what was found there (resolved-bases oracle): the documentation side
+        (mode 0) gets what the MODEL found in the imported module, the Python side (mode 1) what CPYTHON has there (adapter 2),
+        so that Spec.PyBind stays independent of pydoctor; the two annotations must agree on what they share."""
         mod: Dict[Tuple[int, str], Any] = {}
         where = {}
+        in_subset = {}
         for i, p in enumerate(pkgs):
             for m in p['mods']:
                 where[fullname(p['pkg'], m['name'])] = (i, m['name'])
+                in_subset[fullname(p['pkg'], m['name'])] = m['sub'] is not False
         pending = [(i, m) for i, p in enumerate(pkgs) for m in p['mods']]
 
         def imports_of(m: Dict[str, Any]) -> List[Any]:
@@ -612,6 +618,32 @@ class Check(PropertyCheck):
                 if n == ref[1]:
                     return [1, x, ms]
             return [0]
+
+        def py_info_for(ref: Any, fallback: Any) -> Any:
+            if not ref or a2 is None:
+                return fallback
+            k = where.get(ref[0])
+            pm = a2[k[0]]['modules'].get(ref[0]) if k is not None else None
+            if pm is None or 'error' in pm:
+                return fallback
+            aux = ('imp_', '_i')           # auxiliary bindings (imports, loop variables) are not members
+            classes = [[e['n'], e['exc'], [x for x in e.get('members', []) if not x[0].startswith(aux)]]
+                       for e in pm['ns'] if e['t'] == 'C' and not e['n'].startswith(aux)]
+            if ref[1] is None:
+                return [2, classes]
+            for n, x, ms in classes:
+                if n == ref[1]:
+                    return [1, x, ms]
+            return [0]
+
+        def consistent(a: Any, b: Any) -> bool:
+            def norm(i: Any) -> Any:
+                if i[0] == 1:
+                    return [1, i[1], sorted({n for n, t in i[2] if t == 0})]
+                if i[0] == 2:
+                    return [2, sorted([n, x, sorted({m for m, t in ms if t == 0})] for n, x, ms in i[1])]
+                return [0]
+            return norm(a) == norm(b)
         for _ in range(8):
             if not pending:
                 break
@@ -632,9 +664,17 @@ class Check(PropertyCheck):
                 ready, later = later, []
             lines = []
             for i, m in ready:
-                w = mp.to_wire(m['body'])
-                lines.append(enc([0, w]))
-                lines.append(enc([1, w]))
+                lines.append(enc([0, mp.to_wire(m['body'])]))
+                saved = []
+                for s in imports_of(m):
+                    saved.append((s, s[3]))
+                    pinfos = [py_info_for(r, f) for r, f in zip(s[4], s[3])]
+                    if not all(consistent(a, b) or not in_subset.get(r[0] if r else '', False) for a, b, r in zip(s[3], pinfos, s[4])):
+                        m['import_info_mismatch'] = [s[3], pinfos]
+                    s[3] = pinfos
+                lines.append(enc([1, mp.to_wire(m['body'])]))
+                for s, old in saved:
+                    s[3] = old
             res = self.model('builder', lines)
             for j, (i, m) in enumerate(ready):
                 mod[(i, m['name'])] = (dec(res[2 * j]), dec(res[2 * j + 1]))
@@ -662,6 +702,9 @@ class Check(PropertyCheck):
                     out.append(Violation('correspondence', 'module %s missing from the pydoctor system' % fn, case=case))
                     continue
                 spec_ok = None
+                if m.pop('import_info_mismatch', None) is not None and len(out) < 40:
+                    out.append(Violation('correspondence', 'what the model finds in a module imported by %s (classes, exception flags, '
+                                         'methods) differs from what CPython has there' % fn, case=case))
                 if (i, m['name']) in mod:
                     mdoc, (mpy, names_ok, strict) = mod[(i, m['name'])]
                     spec_ok = mpy[0] == 1
